@@ -455,7 +455,11 @@ impl Worker {
 
             match message {
                 Message::NewJob(job) => {
-                    job.call_box();
+                    // A panic in a connection handler (for example in an interface
+                    // implementation) must not take the worker thread with it: the pool would
+                    // lose the thread for good, keep counting the job as busy, and panic itself
+                    // when it joins its workers.
+                    let _ = std::panic::catch_unwind(std::panic::AssertUnwindSafe(|| job.call_box()));
                     #[cfg(varlink_rust_verif)]
                     verif::probe(verif::Site::JobDone, 0, 0);
                     {
